@@ -211,4 +211,34 @@ def construct : DtArg → Except PyExc DT
   | .cimdt x => .ok x                      -- copy: datetime, timedelta and (after the fix) precision
   | .other => .error .typeError
 
+/-! ## specification predicates (used in the theorem statements, not by the driver) -/
+
+/-- the string indices at which the asterisks of an accepted timestamp / interval string can start -/
+def tsPrecs : List Nat := [4, 6, 8, 10, 12, 15, 16, 17, 18, 19, 20]
+def ivPrecs : List Nat := [0, 8, 10, 12, 15, 16, 17, 18, 19, 20]
+
+/-- the microsecond digits from string index `p` on are zero (p ≤ 15: all six) -/
+def usMaskOk (us p : Nat) : Bool := us % 10 ^ (21 - max p 15) == 0
+
+/-- Well-formed object state: what the three private fields of a CIMDateTime object can hold.
+    Field values Python's datetime / timedelta accept; a precision only from the reachable set; and every field
+    behind the precision index holds the value the constructor substitutes for asterisks
+    (month/day 1, everything else 0).  `C06_dt_construct_wf` proves every constructor path yields such a state. -/
+def WF : DT → Bool
+  | .ts y mo d h mi s us _ none => validDateTime y mo d h mi s us
+  | .ts y mo d h mi s us _ (some p) =>
+    validDateTime y mo d h mi s us && tsPrecs.contains p &&
+    (!decide (p ≤ 4) || mo == 1) && (!decide (p ≤ 6) || d == 1) && (!decide (p ≤ 8) || h == 0) &&
+    (!decide (p ≤ 10) || mi == 0) && (!decide (p ≤ 12) || s == 0) && usMaskOk us p
+  | .iv days secs us none => decide (secs < 86400) && decide (us < 1000000) && decide (0 ≤ days ∨ days < 0)
+  | .iv days secs us (some p) =>
+    decide (secs < 86400) && decide (us < 1000000) && ivPrecs.contains p &&
+    (!decide (p ≤ 0) || days == 0) && (!decide (p ≤ 8) || secs / 3600 == 0) &&
+    (!decide (p ≤ 10) || secs % 3600 / 60 == 0) && (!decide (p ≤ 12) || secs % 60 == 0) && usMaskOk us p
+
+/-- the values DSP0004 can express: an interval of 0..99999999 days, a UTC offset within ±999 minutes -/
+def Expressible : DT → Bool
+  | .ts _ _ _ _ _ _ _ off _ => decide (-999 ≤ off) && decide (off ≤ 999)
+  | .iv days _ _ _ => decide (0 ≤ days) && decide (days ≤ 99999999)
+
 end Pywbem.Model.DateTime
